@@ -173,10 +173,24 @@ def case_strategy(draw, variant):
     if vkind == "M":
         opsl.remove("sum")
     op = draw(st.sampled_from(opsl))
+    if vspec["dtype"] == "uint64" and op in ("min", "max") and draw(st.booleans()):
+        # unsigned values in the upper half of the range (they are not negative numbers)
+        vspec["vals"] = [v + 2**63 + 1 if i % 2 else v for i, v in enumerate(vspec["vals"])]
     mask = draw(S.mask_spec(n, kinds=("none", "none", "bool")))
+    vc = draw(st.sampled_from(["np", "series", "np", "chunked"]))
+    if vc == "chunked":
+        if vspec["dtype"] in ("float64", "float32", "int64", "int32", "uint8") and n >= 2 and not any(v is None for v in vspec["vals"]):
+            # values in an Arrow chunked array: chunk boundaries independent of groups and mask
+            vc = draw(st.sampled_from(["pa_chunked", "pd_arrow_chunked"]))
+            k = draw(st.integers(2, 4))
+            cuts = sorted(draw(st.lists(st.integers(0, n), min_size=k - 1, max_size=k - 1)))
+            b = [0] + cuts + [n]
+            vspec["chunks"] = [y - x for x, y in zip(b[:-1], b[1:])]
+        else:
+            vc = "np"
     return {"n": n, "warm": draw(S.warm()), "keys": keys, "vals": [vspec], "mask": mask, "op": op,
             "skip_na": draw(st.sampled_from([True, True, False])), "sort": True,
-            "render": {"vc": draw(st.sampled_from(["np", "series"])), "kc": "np", "index": draw(st.sampled_from(["default", "shuffled"])),
+            "render": {"vc": vc, "kc": "np", "index": draw(st.sampled_from(["default", "shuffled"])) if vc in ("np", "series") else "default",
                        "mc": draw(st.sampled_from(["np", "series"]))}}
 
 
@@ -209,7 +223,7 @@ def check(case, ctx):
                 gap = any((labels[i] is None) or (i not in selset) or (labels[i] == l and pyvals[i] is None) for i in span)
                 if other and gap:
                     nt = True
-    ctx.seen("gb", case, nt, [f"op:{op}", f"dtype:{vspec['dtype']}", f"skip_na:{case['skip_na']}", "mask:" + ("bool" if case["mask"] else "none"),
+    ctx.seen("gb", case, nt, [f"op:{op}", f"dtype:{vspec['dtype']}", f"skip_na:{case['skip_na']}", "mask:" + ("bool" if case["mask"] else "none"), f"vc:{case['render']['vc']}",
                               f"nkeys:{len(case['keys'])}"])
     if not isinstance(res, pd.Series) or len(res) != n:
         raise Violation(f"shape:{op}", f"{type(res).__name__} of length {len(res)} for {n} rows")
